@@ -36,6 +36,8 @@ for meta in sorted(glob.glob(os.path.join(ROOT, "seeded", "*", "meta.json"))):
             pass
     rows.append((sid, pid, verdict, what))
     print(sid, pid, verdict, what, flush=True)
+if only:
+    sys.exit(0)
 with open(os.path.join(ROOT, "seeded", "MATRIX.md"), "w") as f:
     f.write("# Seeded changes vs. the quick check of their own property\n\n"
             "Produced by `tools/matrix.py` (applies each `seeded/<id>/patch.diff` to /repo, runs `./check <property>`, reverts).\n\n"
